@@ -1,10 +1,12 @@
 (* C07 Shipped lattice morphisms distribute over merge.
    Covered: CartesianProductBimorphism, KeyedBimorphism (parametric in the wrapped bimorphism,
    hence every tower Keyed<..Keyed<Cartesian>..>), PairBimorphism.
-   NOT covered here: the GHT bimorphisms of lattices/src/ght/lattice.rs.
+   GHT bimorphisms (lattices/src/ght/lattice.rs), on e2-coll's trie model: GhtCartesianProduct and
+   GhtValTypeProduct full; DeepJoin / GhtNodeKeyed towers up to the set of rows (_rows_partial).
    Full statement, for a bimorphism f and all well-formed a, da, b, db:
      f(a merged da, b) = f(a, b) merged f(da, b)   and   f(a, b merged db) = f(a, b) merged f(a, db)
    up to the output lattice's own equality. *)
+From HV Require Import Coll.ModelGHT Coll.PGHT Lattice.MorphGHT Lattice.PMorphGHT.
 From HV Require Import Lattice.Univ Lattice.Morph Lattice.PMorph.
 
 (* every shape Cartesian | Keyed^n(Cartesian) | Pair(ta, tb): distributes in each argument
@@ -93,6 +95,76 @@ Proof.
   exact (conj (bm_l BM Wa Wda Wb) (bm_r BM Wa Wb Wdb)).
 Qed.
 Print Assumptions C07_fixed_all_shapes.
+
+(* ---------------------------------------------------------------- GHT bimorphisms
+   Model and row-level specifications are e2-coll's (Coll/ModelGHT.v, Coll/PGHT.v; [PGHT.wf h d t]:
+   t is a trie of height h keyed from column d on, as produced by insert/merge).  [peq] is the
+   crate's PartialEq on tries, [ModelGHT.merge] its Merge. *)
+
+(* GhtCartesianProductBimorphism, any input height h, output trie with nko key columns: full *)
+Theorem C07_ght_cartesian : forall h d nko a da b db,
+  PGHT.wf h d a -> PGHT.wf h d da -> PGHT.wf h d b -> PGHT.wf h d db ->
+  peq nko (cart_product h nko (fst (ModelGHT.merge h a da)) b)
+          (fst (ModelGHT.merge nko (cart_product h nko a b) (cart_product h nko da b))) = true /\
+  peq nko (cart_product h nko a (fst (ModelGHT.merge h b db)))
+          (fst (ModelGHT.merge nko (cart_product h nko a b) (cart_product h nko a db))) = true.
+Proof. exact cart_product_distrib. Qed.
+Print Assumptions C07_ght_cartesian.
+
+(* GhtValTypeProductBimorphism (two leaves = the deep join at height 0): full *)
+Theorem C07_ght_valtype_product : forall d nk a da b db,
+  PGHT.wf 0 d a -> PGHT.wf 0 d da -> PGHT.wf 0 d b -> PGHT.wf 0 d db ->
+  Forall (fun x : row => d <= length x) (riter 0 a) -> Forall (fun x : row => d <= length x) (riter 0 da) ->
+  Forall (fun x : row => d <= length x) (riter 0 b) -> Forall (fun x : row => d <= length x) (riter 0 db) ->
+  peq 0 (deep_join 0 nk (fst (ModelGHT.merge 0 a da)) b)
+        (fst (ModelGHT.merge 0 (deep_join 0 nk a b) (deep_join 0 nk da b))) = true /\
+  peq 0 (deep_join 0 nk a (fst (ModelGHT.merge 0 b db)))
+        (fst (ModelGHT.merge 0 (deep_join 0 nk a b) (deep_join 0 nk a db))) = true.
+Proof. exact valtype_product_distrib. Qed.
+Print Assumptions C07_ght_valtype_product.
+
+(* DeepJoinLatticeBimorphism = GhtNodeKeyedBimorphism nested h times over the value product.
+   FULL STATEMENT (not proved):  peq h X Y = true  for X, Y below.
+   PROVED (_rows_partial): X and Y are weakly well-formed tries holding exactly the same rows.
+   Missing: the join output may contain empty children, for which == is finer than "same rows";
+   that X and Y also have the same key structure is not proved (checked on the implementation). *)
+Theorem C07_ght_deep_join_rows_partial : forall h d nk a da b db,
+  PGHT.wf h d a -> PGHT.wf h d da -> PGHT.wf h d b -> PGHT.wf h d db ->
+  Forall (fun x : row => h + d <= length x) (riter h a) ->
+  Forall (fun x : row => h + d <= length x) (riter h da) ->
+  Forall (fun x : row => h + d <= length x) (riter h b) ->
+  Forall (fun x : row => h + d <= length x) (riter h db) ->
+  (let X := deep_join h nk (fst (ModelGHT.merge h a da)) b in
+   let Y := fst (ModelGHT.merge h (deep_join h nk a b) (deep_join h nk da b)) in
+   wfw h d X /\ wfw h d Y /\ forall z, In z (riter h X) <-> In z (riter h Y)) /\
+  (let X := deep_join h nk a (fst (ModelGHT.merge h b db)) in
+   let Y := fst (ModelGHT.merge h (deep_join h nk a b) (deep_join h nk a db)) in
+   wfw h d X /\ wfw h d Y /\ forall z, In z (riter h X) <-> In z (riter h Y)).
+Proof.
+  intros h d nk a da b db Wa Wda Wb Wdb La Lda Lb Ldb. split.
+  - exact (@deep_join_distrib_l h d nk a da b Wa Wda Wb La Lda Lb).
+  - exact (@deep_join_distrib_r h d nk a b db Wa Wb Wdb La Lb Ldb).
+Qed.
+Print Assumptions C07_ght_deep_join_rows_partial.
+
+(* the tries the harness builds (rows of one arity inserted into Default) satisfy the hypotheses *)
+Theorem C07_ght_inputs_wf : forall nk arity rows,
+  Forall (fun x : row => length x = arity) rows -> nk <= arity ->
+  PGHT.wf nk 0 (build nk rows) /\ (forall x, In x (riter nk (build nk rows)) <-> In x rows) /\
+  Forall (fun x : row => nk + 0 <= length x) (riter nk (build nk rows)).
+Proof.
+  intros nk arity rows F le. destruct (build_spec nk rows) as [W M].
+  exact (conj W (conj M (@build_len nk arity rows F le))).
+Qed.
+Print Assumptions C07_ght_inputs_wf.
+
+Example C07_ght_nonvacuous :
+  let a := build 2 [[1; 2; 3]; [1; 4; 5]]%N in let da := build 2 [[1; 2; 9]; [2; 2; 2]]%N in
+  let b := build 2 [[1; 2; 7]; [1; 5; 5]; [2; 2; 8]]%N in
+  riter 2 (deep_join 2 2 (fst (ModelGHT.merge 2 a da)) b) = [[1; 2; 3; 7]; [1; 2; 9; 7]; [2; 2; 2; 8]]%N /\
+  peq 2 (deep_join 2 2 (fst (ModelGHT.merge 2 a da)) b)
+        (fst (ModelGHT.merge 2 (deep_join 2 2 a b) (deep_join 2 2 da b))) = true.
+Proof. split; vm_compute; reflexivity. Qed.
 
 (* the executable form evaluated by the correspondence check is implied by the theorem *)
 Theorem C07_holds_b_sound : forall s, shape_ok s = true ->
